@@ -39,7 +39,16 @@ def optimize_contains_types(source: str) -> str:
     wrapper_names = ("sorted", "list", "tuple", "set", "iter", "reversed")
     template = core.compile_template(find, wrapper=ast.Name(id=wrapper_names))
 
-    yield from processing.find_replace(source, template, replace)
+    for *replacement, template_match in processing.find_replace(
+        source, template, replace, yield_match=True
+    ):
+        # The replacement is put together as text, without the parentheses that an element
+        # which binds less tightly than `in` has in the code.
+        if not isinstance(
+            template_match.element,
+            (ast.IfExp, ast.Lambda, ast.NamedExpr, ast.BoolOp, ast.Compare, ast.UnaryOp),
+        ):
+            yield tuple(replacement)
 
     sorted_list_tuple_call_template = ast.Call(
         func=ast.Name(id=("sorted", "list", "tuple"), ctx=ast.Load), args=[object], keywords=[]
